@@ -19,6 +19,7 @@ class Spec:
     search_rounds = 6             # extra generation rounds when something broke
     case_timeout = 3600
     max_reports = 3
+    source_files = ()             # anchored tlx sources the model transliterates (sentinel)
 
     def translator(self, ctx):
         """regenerate Gen/*.lean from /repo; return list of problems (strings)"""
@@ -74,6 +75,7 @@ def run(spec, tier, seed, replay=None):
     broken = list(tprobs) + list(lean["problems"])
 
     # ---- C/D harness + correspondence
+    changed_sources = core.sources_changed(pid, spec.source_files) if spec.source_files else []
     res = None
     hcmd = dcmd = None
     stats = dict(cases=0, ops=0, nontrivial=set(), samples=[], hist={})
@@ -126,7 +128,12 @@ def run(spec, tier, seed, replay=None):
 
             t = time.time()
             run_round(_corpus_cases(pid), "corpus")
-            run_round(spec.cases(ctx, seed, tier, 0), "generated")
+            gen_tier = tier
+            if changed_sources and tier == "quick":
+                ctx.say("modelled sources changed since the model was last reviewed against them "
+                        f"({', '.join(changed_sources)}): validating the model at thorough depth")
+                gen_tier = "thorough"
+            run_round(spec.cases(ctx, seed, gen_tier, 0), "generated")
             ctx.say(f"correspondence took {time.time()-t:.1f}s")
 
             if (broken or mismatch_info) and not any(v[2] is None for v in reported.values()):
@@ -194,6 +201,7 @@ def run(spec, tier, seed, replay=None):
         "samples": stats["samples"] or [{"theorems": list(lean["theorems"])[:5]}],
         "traces_validated_against_impl": stats["cases"],
         "model_impl_mismatches": len(mismatch_info),
+        "modelled_sources_changed_since_review": changed_sources,
     }
     cov.update(spec.extra_coverage(ctx, res) or {})
     return core.finish(ctx, "proof", cov, list(spec.assumptions))
